@@ -41,6 +41,28 @@ CHECKS["C03"] = dict(
     design="DESIGN.md section 3 C03",
 )
 
+CHECKS["C01"] = dict(
+    category="translation_validation",
+    technique="translation validation per structure: generated header -> clang -O2 LLVM IR -> z3 (ll2smt) against a reference semantics in z3 (embz3), one equivalence query per observable",
+    text="For every structure of the corpus the compiled view (Ok, IsComplete, SizeIsKnown/size, has_x, x().Ok(), "
+         "x().Read(), array counts and elements) is proved equal to an independent reference semantics written from the "
+         "language reference, for every buffer content, every length 0..N and every parameter value.  The quantifier "
+         "over all programs is met only by the corpus (testdata/*.emb and /verif/corpus).",
+    note="Reference trusts the front end's name resolution, $next/anonymous-bits desugaring and folded constants "
+         "(the latter decided in C05); arrays up to 4 elements; clang 14 x86-64 IR; counterexamples replayed natively.",
+    design="DESIGN.md section 3 C01",
+)
+CHECKS["C04"] = dict(
+    category="model_checking",
+    technique="reachability queries over clang LLVM IR (-O2 and -fsanitize=undefined,bounds -fsanitize-trap=all builds) executed symbolically with an explicit memory model (ll2smt)",
+    text="Every load/store inside the backing buffer and aligned, every llvm.ubsantrap and __assert_fail site, every "
+         "nuw/nsw/exact flag and llvm.assume: one unreachability query each, for all buffers of length 0..N (and the null "
+         "buffer) and all values, over the leaf kernels of every scalar view and the checked entry points of the corpus structures.",
+    note="Text output/UpdateFromText are outside (iostream/std::string are not encodable); buffer length bounded; "
+         "base pointer aligned as the view type promises.",
+    design="DESIGN.md section 3 C04",
+)
+
 NOT_APPLICABLE = {
 }
 
